@@ -1020,7 +1020,7 @@ impl<'a> WriteTxn<'a> {
                                 key.extend_from_slice(&re.id.to_be_bytes());
                                 key.extend_from_slice(&encode_ordered_value(&val));
 
-                                let _ = tree.insert(&mut pager, &key, node_id as u64);
+                                tree.insert(&mut pager, &key, node_id as u64)?;
                                 re.root = tree.root();
                             }
                         }
@@ -1034,7 +1034,7 @@ impl<'a> WriteTxn<'a> {
                                     old_key.extend_from_slice(&re.id.to_be_bytes());
                                     old_key.extend_from_slice(&encode_ordered_value(&old_val));
 
-                                    let _ = tree.delete(&mut pager, &old_key, node_id as u64);
+                                    tree.delete(&mut pager, &old_key, node_id as u64)?;
                                 }
 
                                 // 2. Insert new value
@@ -1042,7 +1042,7 @@ impl<'a> WriteTxn<'a> {
                                 new_key.extend_from_slice(&re.id.to_be_bytes());
                                 new_key.extend_from_slice(&encode_ordered_value(&new_val));
 
-                                let _ = tree.insert(&mut pager, &new_key, node_id as u64);
+                                tree.insert(&mut pager, &new_key, node_id as u64)?;
                                 re.root = tree.root();
                             }
                         }
@@ -1054,7 +1054,7 @@ impl<'a> WriteTxn<'a> {
                                     let mut old_key = Vec::new();
                                     old_key.extend_from_slice(&re.id.to_be_bytes());
                                     old_key.extend_from_slice(&encode_ordered_value(&old_val));
-                                    let _ = tree.delete(&mut pager, &old_key, node_id as u64);
+                                    tree.delete(&mut pager, &old_key, node_id as u64)?;
                                     re.root = tree.root();
                                 }
                             }
